@@ -386,6 +386,8 @@ pub struct Observed {
     pub output: Vec<u8>,
     /// Some(text) when the TextUtf8 helper returned Ok
     pub text: Option<String>,
+    /// WriteTo mode: (simulated time, bytes) of every write the caller's writer received
+    pub sink_writes: Vec<(u64, usize)>,
 }
 
 pub fn err_kind(e: &attohttpc::Error) -> String {
@@ -410,10 +412,11 @@ pub fn io_kind(e: &std::io::Error) -> String {
     format!("Io({:?})", e.kind())
 }
 
-struct Collect<'a>(&'a mut Vec<u8>);
+struct Collect<'a>(&'a mut Vec<u8>, &'a mut Vec<(u64, usize)>);
 impl std::io::Write for Collect<'_> {
     fn write(&mut self, b: &[u8]) -> std::io::Result<usize> {
         self.0.extend_from_slice(b);
+        self.1.push((attosim::now_ns(), b.len()));
         Ok(b.len())
     }
     fn flush(&mut self) -> std::io::Result<()> {
@@ -512,9 +515,11 @@ pub fn caller_with(plan: &BodyPlan, stop_on_block: bool, tweak: impl FnOnce(atto
         ReadMode::WriteTo => {
             let t_in = attosim::now_ns();
             let mut sink = Vec::new();
-            let r = resp.write_to(Collect(&mut sink));
+            let mut stamps = Vec::new();
+            let r = resp.write_to(Collect(&mut sink, &mut stamps));
             let t_out = attosim::now_ns();
             o.output = sink;
+            o.sink_writes = stamps;
             let res = match r {
                 Ok(n) => Ok(n as usize),
                 Err(e) => Err(err_kind(&e)),
